@@ -342,6 +342,10 @@ func c18GenRequests(r *core.Rand, t *tree.Tree) []string {
 		}
 		if q != "" && q != "/" && q != "." && r.P(1, 10) {
 			q = "/" + q
+		} else if q != "" && !strings.HasPrefix(q, "/") && r.P(1, 12) {
+			// a request that starts above the root: the root is "/", so the
+			// leading ".." elements stay there
+			q = core.Pick(r, []string{"../", "../../", "./../"}) + q
 		}
 		out = append(out, q)
 	}
